@@ -1,5 +1,6 @@
 import Lean
 import Dnp3.Model.Ffi
+import Dnp3.Model.FfiHandler
 /-!
 # C20 — the reviewed exception lists (one comment per entry)
 
@@ -118,5 +119,51 @@ def constFields : List (Name × Name) := [
   (c!"RestartDelayFields", c!"value"),                                       -- NotSupported has no delay
   (c!"Timestamp", c!"quality")                                              -- g50/g51 absolute time is synchronized by definition
 ]
+
+/-! ## master-side measurement path (`impl ReadHandler for ffi::ReadHandler`, Gen/FfiHandler.lean): reviewed constants -/
+
+/-- how a method of the impl is written: `handle_x` ↦ `XIterator::new(iter)`, `info.into()`, `(self, info, &mut iterator)` -/
+def methodCfg : Dnp3.FfiHandler.MethodCfg where
+  pHandle := c!"handle_"
+  sIterator := c!"Iterator"
+  nIter := c!"iter"
+  nInfoInto := c!"info.into()"
+  iterArgs := [c!"self", c!"info", c!"&mut iterator"]
+  fragArgs := [c!"self", c!"read_type.into()", c!"header.into()"]
+  valueArgs := [c!"self", c!"info.into()"]
+
+/-- the adapter that is not generated by `implement_iterator!` -/
+def octetIt : Dnp3.Ffi.Name := c!"OctetStringIterator"
+
+/-- the body of `macro_rules! implement_iterator` -/
+def macroCfg : Dnp3.FfiHandler.MacroCfg where
+  libParam := c!"$lib_type"
+  ffiParam := c!"$ffi_type"
+  u16 := c!"u16"
+  slot := c!"self.next"
+  ctor := c!"<$ffi_type>::new"
+  newInit := [c!"inner", c!"next:None"]
+  idx := c!"idx"
+  value := c!"value"
+
+/-- what every exported `*_iterator_next` does with a non-null iterator: advance, then yield the slot (NULL when empty) -/
+def nextSteps : List Dnp3.Ffi.Name := [c!"it.next()", c!"it.next.as_ref()"]
+
+/-- the arms of `handle_device_attribute` -/
+def attrCfg : Dnp3.FfiHandler.AttrCfg where
+  pHandle := c!"handle_"
+  sAttr := c!"Attr"
+  -- `FfiAttrValue::DNP3Time` is delivered through `handle_time_attr` with `ffi::TimeAttr`
+  renames := [(c!"DNP3Time", c!"Time")]
+  nSelf := c!"self"
+  nInfo := c!"info"
+  nSet := c!"set.value()"
+  nVar := c!"var"
+  nE := c!"e"
+  ePre := c!"e.map(|x|x.into()).unwrap_or(ffi::"
+  ePost := c!"::Unknown)"
+  eInto := c!"e.into()"
+  pFfi := c!"ffi::"
+  sUnknown := c!"::Unknown"
 
 end Dnp3.Props.C20
